@@ -641,7 +641,7 @@ pub fn run(args: &Args, out: &mut Out) {
         out.end();
         idx += 1;
     }
-    let n = args.n(2500, 150_000);
+    let n = args.n(2500, 120_000);
     for i in 0..n {
         let mut rng = Rng::for_case(args.seed, i);
         let class = rng.below(4);
